@@ -65,7 +65,6 @@ Section FieldSup.
             negb (Nat.eqb idx i) &&
             match nth_error allf idx, nth_error allv idx, nth_error cfs (Z.to_nat present), nth_error cvs (Z.to_nat present) with
             | Some rf, Some rv, Some a, Some av =>
-                ref_shape (f_ty rf) &&
                 match p_refValue (f_params a), get_ref REF_FUEL (f_ty rf) rv with
                 | Some r, Ok z => (r =? z)%Z && Nat.eqb (find_alt (tl cfs) 1 r) (Z.to_nat present)
                                   && rec (f_ty a) (f_params a) av
